@@ -6,11 +6,13 @@ CONFIG = ledger_config("C04", ["Sky/Props/C04.lean"], dict(
          "header, has seq head+1, later time, the head's hash as parent, matching body hash and unspent checksum, is not a second "
          "genesis, and the stored chain is the old chain plus the SUBMITTED block (append_only_if, stored_is_submitted, "
          "second_genesis_refused, unsigned_refused); a rejected block leaves the whole state unchanged (reject_no_change); after any "
-         "history the stored chain is signed, consecutive, time-increasing and hash-linked (chain_shape_invariant). Tie: every "
+         "history the stored chain is signed, consecutive, time-increasing and hash-linked (chain_shape_invariant); conversely, in every "
+         "state a history reaches (Strong, storage_invariants_after_run) a signed block that passes processBlock and is new to the "
+         "block store IS appended - no storage step can refuse it (append_iff, execSigned_succeeds). Tie: every "
          "single-field mutation of valid next blocks (re-signed with the real key, stale signature, forger key, flipped signature bits) is "
          "submitted to real nodes at random points of random histories; verdict, stored chain and whole state are compared per op and "
          "the node's own visor.CheckDatabase runs on copies of the real database.",
-    note="'only if' direction proved; the converse needs the derived-index invariants and is carried by the correspondence. Model = code after "
+    note="both directions proved on the model (the converse under the history invariants of Sky/Ledger/Progress.lean and the hash hypotheses HashInj/WfSound). Model = code after "
          "the repairs of F3 (PrevHash overwrite) and F15 (re-arbitration of signed blocks).",
     technique="Lean 4 proof over ledger model + mutation-driven differential correspondence + CheckDatabase on real files",
 ), profile="c04")
